@@ -1,20 +1,20 @@
 SPECIFICATION Spec
 CONSTANTS
-  AMs = {"am1", "am2"}
+  AMs = {"am1"}
   InitAMs = {"am1"}
-  Cap = 2
   MaxBatch = 2
-  NAlerts = 3
-  SendSizes = {1, 2}
+  SendSizes = {1, 2, 4}
   DropIds = {2}
   MaxFail = 1
   MaxSync = 1
-  Eager = FALSE
+  Eager = TRUE
   SendHoldsLock = TRUE
   MaxApply = 1
-  Gated = {FALSE}
-  Hist = FALSE
-  EmitMode = "none"
+  Gated = {TRUE, FALSE}
+  Hist = TRUE
+  EmitMode = "settled"
+VIEW View
 INVARIANTS TypeOK OrderPreserved BatchBound AcceptedAreSurvivors QueueIsSuffix LossCounted LossExact AllAccepted SentCounted DrainComplete
 PROPERTIES DropOldest
+ACTION_CONSTRAINT Emit
 CHECK_DEADLOCK FALSE
